@@ -12,6 +12,7 @@ from ..paths import enumerate_paths
 from .. import tables
 from ..tables import Atom
 from ..consteval import fold_expr, Regex
+from .. import rx
 
 ARGLIST = 'mesonbuild/arglist.py'
 CLIKE = 'mesonbuild/compilers/mixins/clike.py'
@@ -27,24 +28,36 @@ TABLE_ROLE = {
     'dedup1_prefixes': 'UNIQUE', 'dedup1_suffixes': 'UNIQUE', 'dedup1_args': 'UNIQUE', 'dedup1_regex': 'UNIQUE',
 }
 
-# Reference classification of C-like arguments.  Provenance: statement of property C13 ("-I/-L go in front;
-# of identical override-type arguments only the highest-precedence occurrence survives: front-most for -I/-L, the last
-# for -D/-U/-isystem; a repeat of a once-only argument (-lfoo, a library file, -pthread ...) is dropped; arguments that
-# cannot be de-duplicated keep order and multiplicity"), CompilerArgs class docstring, and the comment in
-# _can_dedup (a prefix used as a separate word, `-D FOO`, must never be de-duplicated).
-#   argument -> (dedup class, goes in front?)   None = not specified
-REF_CLIKE: T.Dict[str, T.Tuple[str, T.Optional[bool]]] = {
-    '-Ifoo': ('OVERRIDDEN', True), '-I/usr/include': ('OVERRIDDEN', True), '-Lfoo': ('OVERRIDDEN', True), '-L/usr/lib': ('OVERRIDDEN', True),
-    '-isystem/opt/inc': ('OVERRIDDEN', False), '-DFOO': ('OVERRIDDEN', False), '-DFOO=1': ('OVERRIDDEN', False), '-UFOO': ('OVERRIDDEN', False),
-    '-I': ('NO_DEDUP', None), '-L': ('NO_DEDUP', None), '-D': ('NO_DEDUP', False), '-U': ('NO_DEDUP', False), '-isystem': ('NO_DEDUP', False),
-    '-l': ('NO_DEDUP', False),
-    '-lfoo': ('UNIQUE', False), '-lm': ('UNIQUE', False), '-Wl,-lfoo': ('UNIQUE', False), '-Wl,-rpath,/opt/lib': ('UNIQUE', False),
-    'libfoo.a': ('UNIQUE', False), '/usr/lib/libfoo.so': ('UNIQUE', False), '/usr/lib/libfoo.so.1.2.3': ('UNIQUE', False), 'libbar.so.4': ('UNIQUE', False),
-    'foo.lib': ('UNIQUE', False), 'foo.dll': ('UNIQUE', False), '/opt/libfoo.dylib': ('UNIQUE', False),
-    '-pthread': ('UNIQUE', False), '-pipe': ('UNIQUE', False), '-c': ('UNIQUE', False),
-    '-Wall': ('NO_DEDUP', False), '-O2': ('NO_DEDUP', False), '-g': ('NO_DEDUP', False), '-fPIC': ('NO_DEDUP', False), '-std=c99': ('NO_DEDUP', False),
-    'foo.o': ('NO_DEDUP', False), 'main.c': ('NO_DEDUP', False), '-include': ('NO_DEDUP', False), '-Wl,--start-group': ('NO_DEDUP', False),
-    '-framework': ('NO_DEDUP', False), 'Cocoa': ('NO_DEDUP', False),
+# How a table may be consulted, by its role in the class (a table of prefixes is a startswith/`in` table ...).
+TABLE_KIND = {
+    'dedup2_prefixes': ('prefix', 'eq'), 'dedup1_prefixes': ('prefix', 'eq'), 'dedup2_suffixes': ('suffix',), 'dedup1_suffixes': ('suffix',),
+    'dedup2_args': ('eq',), 'dedup1_args': ('eq',), 'dedup1_regex': ('regex',),
+}
+
+# Reference content of the C-like tables.  Provenance: statement of property C13 ("every batch of -I/-L arguments goes in
+# front; of identical override-type arguments only the highest-precedence occurrence survives: the front-most for -I/-L,
+# the last for -D/-U/-isystem; a repeat of a once-only argument (-lfoo, a library file, -pthread ...) is dropped") and
+# DESIGN section 2 C13.R2.  'exact': the folded table must equal the set; 'at least': it must contain it (more once-only
+# spellings may be added without breaking the contract).
+REF_TABLES: T.Dict[str, T.Tuple[str, T.FrozenSet[str]]] = {
+    'prepend_prefixes': ('exact', frozenset({'-I', '-L'})),
+    'dedup2_prefixes': ('exact', frozenset({'-I', '-isystem', '-L', '-D', '-U'})),
+    'dedup2_suffixes': ('exact', frozenset()),
+    'dedup2_args': ('exact', frozenset()),
+    'dedup1_prefixes': ('at least', frozenset({'-l', '-Wl,-l', '-Wl,-rpath,', '-Wl,-rpath-link,'})),
+    'dedup1_suffixes': ('at least', frozenset({'.lib', '.dll', '.so', '.dylib', '.a'})),
+    'dedup1_args': ('at least', frozenset({'-c', '-S', '-E', '-pipe', '-pthread', '-Wl,--export-dynamic'})),
+}
+
+# Language facts about the versioned-shared-library regex (comment above it in arglist.py: "Match a .so of the form
+# path/to/libfoo.so.0.1.0"): membership of words / emptiness of intersections, decided on the sa.rx NFA.
+RX_MEMBERS = ['libfoo.so', 'libfoo.so.0', 'libfoo.so.0.1', 'libfoo.so.0.1.0', '/libfoo.so.12.3.45', '\\libz.so.1']
+RX_DISJOINT = {
+    r'lib[a-z]+\.so(\.[0-9]+)(\.[0-9]+)(\.[0-9]+)(\.[0-9]+)': 'more than three version components',
+    r'[a-km-z]+\.so(\.[0-9]+)?': 'a file name without the lib prefix',
+    r'lib[a-z]+\.so\.[a-np-z]+': 'a non-numeric version component',
+    r'lib[a-z]+\.so\.[0-9]+[a-z]+': 'trailing text after the version (must be anchored at the end)',
+    r'lib[a-z]+\.(a|dll|lib|dylib)': 'other library suffixes (they belong to dedup1_suffixes)',
 }
 
 
@@ -79,17 +92,8 @@ def _arg_test(a: Atom, arg: str = 'ARG1') -> T.Optional[ArgTest]:
     return None
 
 
-def _memo(mod: Module) -> Module:
-    if '_c13_imports' not in mod.__dict__:      # see c13.memo_imports
-        table = mod.imports()
-        mod.__dict__['_c13_imports'] = table
-        mod.imports = lambda: table  # type: ignore[method-assign]
-    return mod
-
-
 def _resolve(ctx: RuleCtx, rel: str, cls: str, meth: str) -> T.Tuple[Module, ast.ClassDef, T.Any]:
-    mod = _memo(ctx.repo.module(rel))
-    _memo(ctx.repo.module(ARGLIST))
+    mod = ctx.repo.module(rel)
     r = ctx.repo.find_method(mod, mod.cls(cls), meth)
     if r is None:
         raise Undecided(f'{cls}.{meth} not found along the class hierarchy')
@@ -97,7 +101,7 @@ def _resolve(ctx: RuleCtx, rel: str, cls: str, meth: str) -> T.Tuple[Module, ast
 
 
 def _fold_table(ctx: RuleCtx, rel: str, cls: str, name: str) -> T.Any:
-    mod = _memo(ctx.repo.module(rel))
+    mod = ctx.repo.module(rel)
     v = fold_expr(ctx.repo, mod, ast.parse(f'{cls}.{name}', mode='eval').body)
     if isinstance(v, Regex):
         return v
@@ -106,18 +110,37 @@ def _fold_table(ctx: RuleCtx, rel: str, cls: str, name: str) -> T.Any:
     return tuple(v)
 
 
-def _holds(t: ArgTest, value: T.Any, arg: str) -> bool:
-    if t.kind == 'regex':
-        if not isinstance(value, Regex):
-            raise Undecided(f'{t.table} is used as a regular expression but folds to {value!r}')
-        return re.search(value.pattern, arg, value.flags) is not None
-    if isinstance(value, Regex):
-        raise Undecided(f'{t.table} is a regular expression used as a collection')
-    if t.kind == 'eq':
-        return arg in value
-    if t.kind == 'prefix':
-        return arg.startswith(tuple(value))
-    return arg.endswith(tuple(value))
+def _anchors(pattern: str, flags: int) -> T.Tuple[bool, bool]:
+    """(ends with an end anchor, starts with `\\A`/`^` or one path separator) from the regex syntax tree."""
+    tree = list(rx.parse(pattern, flags))
+    if not tree:
+        return False, False
+    op, av = tree[-1]
+    tail = str(op) == 'AT' and str(av) in ('AT_END', 'AT_END_STRING')
+
+    def alt_ok(items: T.List[T.Any]) -> bool:
+        if len(items) != 1:
+            return False
+        o, a = items[0]
+        if str(o) == 'AT':
+            return str(a) in ('AT_BEGINNING', 'AT_BEGINNING_STRING')
+        if str(o) == 'LITERAL':
+            return chr(a) in '/\\'
+        if str(o) == 'IN':
+            return rx.class_chars(a, rx.BASE_SAMPLES) <= {'/', '\\'}
+        return False
+    o, a = tree[0]
+    if str(o) == 'SUBPATTERN':
+        inner = list(a[-1])
+        if len(inner) == 1 and str(inner[0][0]) == 'BRANCH':
+            head = all(alt_ok(list(b)) for b in inner[0][1][1])
+        else:
+            head = alt_ok(inner)
+    elif str(o) == 'BRANCH':
+        head = all(alt_ok(list(b)) for b in a[1]) and len(tree) > 1
+    else:
+        head = alt_ok([tree[0]])
+    return tail, head
 
 
 def r2(ctx: RuleCtx) -> None:
@@ -158,7 +181,18 @@ def r2(ctx: RuleCtx) -> None:
     if not bad:
         ctx.ok(f'{qn}: {len(tab.rows)} rows agree with bare-prefix > OVERRIDDEN > UNIQUE > NO_DEDUP on {n} worlds of {len(tests)} atoms')
 
-    # (b) _should_prepend: a boolean combination of tests of the argument against class tables
+    # every table is consulted in the way its role allows, and a prefix table is also tested for "is itself the prefix"
+    for a_, t in tests.items():
+        ctx.require(t.kind in TABLE_KIND[t.table], f'{qn}: {t.table} is consulted as {t.kind}', mod, qn, repr(a_),
+                    f'{t.table} is consulted with a {t.kind} test (`{a_!r}`); a table of that role is a {"/".join(TABLE_KIND[t.table])} table', fn)
+    for pt in sorted(prefix_tables):
+        ctx.require(ArgTest('eq', pt) in tests.values(), f'{qn}: a word that is itself an entry of {pt} is tested for', mod, qn, f'bare-prefix test of {pt}',
+                    f'{pt} is used with startswith but there is no `arg in cls.{pt}` test: an option given as a separate word (`-D FOO`) '
+                    'would be de-duplicated and its value orphaned', fn)
+    ctx.require(prefix_tables == {'dedup1_prefixes', 'dedup2_prefixes'}, f'{qn}: both prefix tables are consulted with startswith', mod, qn, 'prefix tables',
+                f'tables consulted with startswith: {sorted(prefix_tables)}; expected dedup1_prefixes and dedup2_prefixes', fn)
+
+    # (b) _should_prepend is equivalent to "starts with an entry of prepend_prefixes", on every world of its atoms
     pmod, pcdef, pfn = _resolve(ctx, CLIKE, 'CLikeCompilerArgs', '_should_prepend')
     pqn = f'{pcdef.name}._should_prepend'
     ptab = tables.extract(pfn, name=pqn)
@@ -179,13 +213,17 @@ def r2(ctx: RuleCtx) -> None:
                 raise Undecided(f'{pqn}: test outside the reference vocabulary: {a!r}')
             ptests[a] = t
     for a in ptab.atoms():
-        learn(ast.parse(repr(a), mode='eval').body if a.kind != 'truth' else ast.parse(a.args[0], mode='eval').body)
+        t0 = _arg_test(a)
+        if t0 is None:
+            raise Undecided(f'{pqn}: test outside the reference vocabulary: {a!r}')
+        ptests[a] = t0
     for r_ in ptab.rows:
         if r_.outcome[0] != 'return':
             raise Undecided(f'{pqn}: leaves by {r_.outcome}')
         learn(ast.parse(r_.outcome[1], mode='eval').body)
 
     def truth(e: ast.AST, w: T.Dict[Atom, bool]) -> bool:
+        """Truth of a returned and/or/not combination of atoms in world w (no argument value involved)."""
         if isinstance(e, ast.BoolOp):
             vals = [truth(v, w) for v in e.values]
             return all(vals) if isinstance(e.op, ast.And) else any(vals)
@@ -195,35 +233,71 @@ def r2(ctx: RuleCtx) -> None:
             return bool(e.value)
         a, pol = tables.canon(e, True)
         return w[a] == pol
+    want_atom = [a for a, t in ptests.items() if t == ArgTest('prefix', 'prepend_prefixes')]
+    import itertools
+    diff = None
+    nw = 0
+    for bits in itertools.product((False, True), repeat=len(ptests)):
+        w = dict(zip(ptests, bits))
+        rows = ptab.fire({a: v for a, v in w.items() if a in ptab.atoms()})
+        if len(rows) != 1:
+            raise Undecided(f'{pqn}: {len(rows)} rows fire in one world')
+        nw += 1
+        got = truth(ast.parse(rows[0].outcome[1], mode='eval').body, w)
+        if not want_atom or got != w[want_atom[0]]:
+            diff = ', '.join(f'{t.kind}:{t.table}={w[a]}' for a, t in ptests.items())
+            break
+    ctx.require(diff is None, f'{pqn}: true exactly when the argument starts with an entry of prepend_prefixes ({nw} worlds)', pmod, pqn, pfn,
+                f'_should_prepend is not equivalent to arg.startswith(cls.prepend_prefixes) (differs when {diff}): '
+                'arguments of the wrong kind are put in front / -I, -L are appended', pfn)
 
-    # (c) the folded tables of the C-like class classify the documented argument kinds as the property states
-    values: T.Dict[str, T.Any] = {}
-    for t in list(tests.values()) + list(ptests.values()):
-        if t.table not in values:
-            values[t.table] = _fold_table(ctx, CLIKE, 'CLikeCompilerArgs', t.table)
-    ctx.note('folded CLikeCompilerArgs tables: ' + '; '.join(f'{k}={v!r}' for k, v in sorted(values.items()) if not isinstance(v, Regex)))
+    # (c) folded tables of the C-like class against the reference sets
     cmod = ctx.repo.module(CLIKE)
     ccls = cmod.cls('CLikeCompilerArgs')
-    for arg, (want_cls, want_front) in REF_CLIKE.items():
-        w = {a: _holds(t, values[t.table], arg) for a, t in tests.items()}
-        rows = tab.fire(w)
-        if len(rows) != 1 or rows[0].outcome[0] != 'return':
-            raise Undecided(f'{qn}: no unique returning row for {arg!r}')
-        got = rows[0].outcome[1].split('.')[-1]
-        holds = sorted(f'{t.kind}:{t.table}' for a, t in tests.items() if w[a])
-        ok1 = ctx.require(got == want_cls, f'C-like {arg!r} is classified {want_cls}', cmod, 'CLikeCompilerArgs', f'dedup class of {arg}',
-                          f'{arg!r} is classified {got} by the folded tables (tests that hold: {holds or "none"}); the contract requires {want_cls}', ccls)
-        if want_front is not None:
-            pw = {a: _holds(t, values[t.table], arg) for a, t in ptests.items()}
-            prow = ptab.fire(pw)
-            if len(prow) != 1:
-                raise Undecided(f'{pqn}: no unique row for {arg!r}')
-            front = truth(ast.parse(prow[0].outcome[1], mode='eval').body, pw)
-            ok2 = ctx.require(front == want_front, f'C-like {arg!r} {"goes in front" if want_front else "is appended"}', cmod, 'CLikeCompilerArgs',
-                              f'placement of {arg}', f'{arg!r} is {"prepended" if front else "appended"}; the contract requires it to be '
-                              f'{"prepended (in front of everything added earlier)" if want_front else "appended in the order added"}', ccls)
-            del ok1, ok2
-    ctx.floor('reference arguments classified', len(REF_CLIKE), 30)
+    folded: T.Dict[str, T.Any] = {}
+    for name, (mode, ref) in REF_TABLES.items():
+        v = _fold_table(ctx, CLIKE, 'CLikeCompilerArgs', name)
+        if isinstance(v, Regex):
+            raise Undecided(f'CLikeCompilerArgs.{name} is a regular expression')
+        folded[name] = got_set = frozenset(v)
+        if mode == 'exact':
+            ok = got_set == ref
+            msg = f'CLikeCompilerArgs.{name} is {sorted(got_set)}; the contract requires exactly {sorted(ref)}' + \
+                  (f' (missing {sorted(ref - got_set)})' if ref - got_set else '') + (f' (extra {sorted(got_set - ref)})' if got_set - ref else '')
+        else:
+            ok = ref <= got_set
+            msg = f'CLikeCompilerArgs.{name} lacks {sorted(ref - got_set)}: these once-only arguments would be repeated on the command line'
+        ctx.require(ok, f'CLikeCompilerArgs.{name} {"equals" if mode == "exact" else "contains"} the reference {sorted(ref)}', cmod, 'CLikeCompilerArgs',
+                    f'table {name}', msg, ccls)
+    ctx.floor('class tables compared with the reference', len(folded), 7)
+    ctx.require(folded['prepend_prefixes'] <= folded['dedup2_prefixes'], 'every prepend prefix is also an OVERRIDDEN prefix (front-most occurrence survives)',
+                cmod, 'CLikeCompilerArgs', 'prepend_prefixes within dedup2_prefixes',
+                f'prepend prefixes {sorted(folded["prepend_prefixes"] - folded["dedup2_prefixes"])} are not de-duplicated: repeated -I/-L pile up in front', ccls)
+    once = folded['dedup1_prefixes'] | folded['dedup1_args']
+    clash = sorted(x for x in once if any(x.startswith(p) for p in folded['dedup2_prefixes']))
+    ctx.require(not clash, 'no once-only spelling is shadowed by an OVERRIDDEN prefix', cmod, 'CLikeCompilerArgs', 'dedup1 entries under dedup2 prefixes',
+                f'{clash} start with an OVERRIDDEN prefix and can never be classified UNIQUE', ccls)
+
+    # (d) language of the versioned shared library regex
+    rxv = _fold_table(ctx, CLIKE, 'CLikeCompilerArgs', 'dedup1_regex')
+    if not isinstance(rxv, Regex):
+        raise Undecided('dedup1_regex does not fold to a regular expression')
+    amod = ctx.repo.module(ARGLIST)
+    # the regex is applied with re.search: it must carry its own anchors (sa.rx decides languages of full matches)
+    if not any(t.kind == 'regex' and t.table == 'dedup1_regex' for t in tests.values()):
+        raise Undecided(f'{qn}: dedup1_regex is not consulted with re.search')
+    tail_ok, head_ok = _anchors(rxv.pattern, rxv.flags)
+    ctx.require(tail_ok, 'dedup1_regex is anchored at the end of the argument', amod, ROOT, 'dedup1_regex end anchor',
+                f'dedup1_regex {rxv.pattern!r} is searched without an end anchor: any argument merely containing lib*.so is treated as once-only', amod.cls(ROOT))
+    ctx.require(head_ok, 'dedup1_regex starts at the beginning of the argument or after a path separator', amod, ROOT, 'dedup1_regex start anchor',
+                f'dedup1_regex {rxv.pattern!r} can start in the middle of a file name (no \\A / path separator alternative in front)', amod.cls(ROOT))
+    for word in RX_MEMBERS:
+        ctx.require(rx.full_matches(rxv.pattern, word, rxv.flags), f'dedup1_regex accepts {word!r}', amod, ROOT, f'dedup1_regex accepts {word}',
+                    f'the language of dedup1_regex {rxv.pattern!r} does not contain {word!r} (a versioned shared library must be once-only)', amod.cls(ROOT))
+    for other, why in RX_DISJOINT.items():
+        wit = rx.intersects(rxv.pattern, other, rxv.flags, 0)
+        ctx.require(wit is None, f'dedup1_regex rejects {why}', amod, ROOT, f'dedup1_regex rejects: {why}',
+                    f'the language of dedup1_regex {rxv.pattern!r} contains {wit!r} ({why})', amod.cls(ROOT))
 
 
 # ---------------------------------------------------------------------------------------------
